@@ -285,6 +285,8 @@ pub struct Cluster {
     /// transport log: (from, to, what)
     pub wire: Vec<(usize, Option<usize>, String)>,
     pub replicate_lists: Vec<(usize, usize, Vec<(NetworkAddress, RecordType)>)>,
+    /// replication lists addressed to peers that are no node of the cluster (routing-table entries only)
+    pub replicate_to_strangers: Vec<(usize, PeerId, Vec<(NetworkAddress, RecordType)>)>,
     pub inconclusive: bool,
     /// alive tasks while idle (transport background tasks)
     pub idle_tasks: usize,
@@ -331,7 +333,7 @@ impl Cluster {
             let peer = PeerId::from(keypair.public());
             nodes.push(NodeSim { net, driver, events, node, dir, keypair, peer, rewards });
         }
-        let mut c = Cluster { rt, nodes, stub, pending: vec![], wire: vec![], replicate_lists: vec![], inconclusive: false, idle_tasks: usize::MAX };
+        let mut c = Cluster { rt, nodes, stub, pending: vec![], wire: vec![], replicate_lists: vec![], replicate_to_strangers: vec![], inconclusive: false, idle_tasks: usize::MAX };
         let n = c.nodes.len();
         for i in 0..n {
             for j in 0..n {
@@ -453,6 +455,9 @@ impl Cluster {
                 let target = self.idx_of(&peer);
                 self.wire.push((from, target, { let t = format!("{req:?}"); if std::env::var_os("VERIF_DEBUG").is_some() { let k = t.find("key:").or(t.find("keys:")).unwrap_or(0); t[k..].chars().take(100).collect() } else { vh_core::one_line(&t, 100) } }));
                 let Some(t) = target else {
+                    if let Request::Cmd(Cmd::Replicate { keys, .. }) = &req {
+                        self.replicate_to_strangers.push((from, peer, keys.clone()));
+                    }
                     // nobody there: the request fails
                     if let Some(s) = sender {
                         let _ = s.send(Err(NetworkError::InternalMsgChannelDropped));
